@@ -686,3 +686,66 @@ def check_bilinear_degree(idx: ProgramIndex, rep: Report, rule: str = "C07.B") -
             else:
                 rep.ok(rule, sample)
     return n
+
+
+# ------------------------------------------------------------------------------------------------ C07.P10
+def check_gated_normalisation(idx: ProgramIndex, rep: Report, classes: List[ClassInfo], rule: str = "C07.P10") -> int:
+    """``ctx.needs_input_grad`` decides WHICH gradients are computed, never how an upstream gradient is read.  A re-binding of
+    an upstream gradient (``g = g.unsqueeze(-2)``: the reshape that makes it broadcast against the saved tensors) that is
+    control dependent on a needs_input_grad test, while a value use of ``g`` can be reached around it, leaves that use with
+    the un-normalised gradient for some requires_grad subsets (the suite sets requires_grad on everything)."""
+    n = 0
+    for c in classes:
+        fn = c.methods.get("backward")
+        if fn is None:
+            continue
+        a = fn.node.args
+        params = [x.arg for x in a.posonlyargs + a.args]
+        grads = [p for p in params[1:] if not p.startswith("_")]
+        if not grads:
+            continue
+        try:
+            from ..inline import inline_helpers
+
+            fn, _inl = inline_helpers(idx, fn)
+        except Exception:
+            pass
+        from ..cfg import CFG
+
+        cfg = CFG(fn)
+        who = f"{c.name}.backward"
+        for g in grads:
+            rebinds = [nd for nd in cfg.stmt_nodes() if nd.kind == "stmt" and isinstance(nd.ast, ast.Assign)
+                       and any(isinstance(t, ast.Name) and t.id == g for t in nd.ast.targets) and value_uses(nd.ast.value, g)]
+            for rb in rebinds:
+                n += 1
+                gates = [cfg.nodes[d] for d in cfg.dominators(rb.id) if cfg.nodes[d].kind == "test"
+                         and "needs_input_grad" in ast.unparse(cfg.nodes[d].ast) and cfg.branch_taken(d, rb.id) is not None]
+                sample = {"function": who, "upstream": g, "rebinding": ast.unparse(rb.ast)[:70], "gated_by_needs_input_grad": bool(gates)}
+                bad_use = None
+                for t in gates:
+                    pol = cfg.branch_taken(t.id, rb.id)
+                    # nodes reachable through the OTHER branch of the needs_input_grad test (the one that skips the re-shaping)
+                    others = [s_ for s_ in cfg.g.successors(t.id) if cfg.g[t.id][s_].get("pol") is (not pol)]
+                    skip = set()
+                    for s_ in others:
+                        skip |= {s_} | nx.descendants(cfg.g, s_)
+                    for u in cfg.stmt_nodes():
+                        if u.id == rb.id or u.ast is None or u.id not in skip or not value_uses(u.ast, g):
+                            continue
+                        if nx.has_path(cfg.g, rb.id, u.id):  # and the re-shaped value reaches the same use
+                            bad_use = (t, u)
+                            break
+                    if bad_use:
+                        break
+                if bad_use:
+                    t, u = bad_use
+                    rep.bad(rule, Finding(PROP, rule, who, f"`{ast.unparse(rb.ast)[:60]}` under `{ast.unparse(t.ast)[:50]}`",
+                                          f"{who}: the upstream gradient `{g}` is re-shaped by `{ast.unparse(rb.ast)[:60]}` only when "
+                                          f"`{ast.unparse(t.ast)[:50]}` holds, but `{ast.unparse(u.ast)[:60]}` (line {u.lineno}) uses it on a path "
+                                          "that skips the re-shaping: for the requires_grad subsets that take that path the gradient is "
+                                          "combined with the saved tensors in the wrong layout (silently, when the sizes happen to broadcast)",
+                                          fn.loc(rb.ast)), sample)
+                else:
+                    rep.ok(rule, sample)
+    return n
